@@ -92,6 +92,8 @@ def run_fuzz_property(prop, spec, tier, seed):
         all_findings += confirmed
         noise += res.noise + [{"kind": "flaky", "path": f["path"]} for f in flaky]
         harness_errors += res.harness_errors
+        if st.get("unparsable_stats_files"):
+            harness_errors.append(f"{st['unparsable_stats_files']} per-process stats file(s) of {label} were not valid JSON (a case description is malformed)")
         minimum = t.get("min_nontrivial_quick", 1) if tier == "quick" else t.get("min_nontrivial_thorough", t.get("min_nontrivial_quick", 1))
         if len(st["distinct"]) < minimum and not confirmed:
             starved.append(f"{label}: {len(st['distinct'])} distinct non-trivial cases < minimum {minimum}")
